@@ -518,8 +518,7 @@ Definition c12_judge (g : config) (p : list N) (x : obs) : sv :=
       let requester := nth 6 p 0 in
       let others :=
           (13 <=? n)%nat && (n <=? length b)%nat &&
-          list_eqb (firstn 9 r) [(requester mod 128) * 2; 15; N.of_nat (n - 4); (g_addr g mod 128) * 2 + 1;
-                                 1; requester; g_addr g; 200; 0]
+          resp_head_ok r requester (g_addr g) n
           && pec_ok n b
           && (nth 9 r 0 <? 32)
           && (nth 10 r 0 =? ctl_cmd p)
@@ -528,6 +527,17 @@ Definition c12_judge (g : config) (p : list N) (x : obs) : sv :=
       else sv_of false (ctl_cmd p)
   | _ => sv_of false (ctl_cmd p)
   end.
+
+Lemma resp_head_ok_of_eq (r : list N) requester addr n :
+  firstn 9 r = [(requester mod 128) * 2; 15; N.of_nat (n - 4); (addr mod 128) * 2 + 1; 1; requester; addr; 200; 0] ->
+  resp_head_ok r requester addr n = true.
+Proof.
+  intros H. unfold resp_head_ok.
+  assert (H7 : firstn 7 r = firstn 7 (firstn 9 r)) by (rewrite firstn_firstn; reflexivity).
+  assert (N7 : nth 7 r 0 = nth 7 (firstn 9 r) 0) by (symmetry; apply nth_firstn_lt; lia).
+  assert (N8 : nth 8 r 0 = nth 8 (firstn 9 r) 0) by (symmetry; apply nth_firstn_lt; lia).
+  rewrite H7, N7, N8, H. cbn [firstn nth]. rewrite list_eqb_refl. reflexivity.
+Qed.
 
 Lemma c12_resp_good g p cc fields buf : cc <= 5 -> (length fields <= 31)%nat -> (64 <= length buf)%nat ->
   good (c12_judge g p (resp_obs g p cc fields buf)) = true.
@@ -542,7 +552,7 @@ Proof.
   assert (Hpec : pec_ok n b = true) by apply resp_pec_ok.
   destruct (resp_9_11 (g_addr g) (nth 6 p 0) (ctl_cmd p) cc fields (skipn n buf) n) as (H9 & H10 & H11);
     [unfold n; lia|]. fold b in H9, H10, H11.
-  rewrite Hhead, Hpec, Hlen, H9, H10, H11, list_eqb_refl, N.eqb_refl.
+  rewrite (resp_head_ok_of_eq _ _ _ _ Hhead), Hpec, Hlen, H9, H10, H11, N.eqb_refl.
   replace (13 <=? n)%nat with true by (symmetry; apply Nat.leb_le; unfold n; lia).
   replace (n <=? length buf)%nat with true by (symmetry; apply Nat.leb_le; unfold n; lia).
   replace (cc <=? 5) with true by (symmetry; apply N.leb_le; exact Hcc).
